@@ -17,7 +17,7 @@ RULE = ("marked-up legal documents (italic/emphasis around party names with and 
 ASSUMPTIONS = ["the name-validity rule is re-implemented in the monitor from its documentation "
                "(length > 2, capitalised, no trailing period, not a number, not a disallowed name)"]
 FLOORS = {"quick": {"documents": 2000, "references_markup_mode": 800, "references_plain_mode": 300,
-                    "markup_only_references": 300, "same_markup_other_steps": 500, "nonreference_citations_compared": 5000},
+                    "markup_only_references": 300, "same_markup_other_steps": 500, "callable_step_lists": 400, "nonreference_citations_compared": 5000},
           "thorough": {"documents": 100000, "references_markup_mode": 40000, "markup_only_references": 15000}}
 N = {"quick": 300, "thorough": 14000}
 SHARDS = {"quick": 8, "thorough": 14}
@@ -43,10 +43,23 @@ def norm(s):
     return re.sub(r"\s+", " ", s)
 
 
+def respace_us(t):
+    """a custom (callable) cleaning step, as the API allows: respell a reporter"""
+    return t.replace("U.S.", "U. S.")
+
+
+def drop_years(t):
+    return re.sub(r" \((?:[^()]*\s)?\d{4}\)", "", t)
+
+
+CALLABLE_LISTS = [["html", respace_us, "all_whitespace"], [respace_us, "html"], ["html", "inline_whitespace", drop_years],
+                  ["html", drop_years, respace_us]]
+
+
 def check(m, steps, rec, T):
     from eyecite import clean_text, get_citations
     from eyecite.models import FullCaseCitation, ReferenceCitation
-    case = dict(markup=m, steps=steps)
+    case = dict(markup=m, steps=[x if isinstance(x, str) else "callable:" + x.__name__ for x in steps])
     try:
         A = get_citations(markup_text=m, clean_steps=steps, tokenizer=T)
         plain = clean_text(m, steps)
@@ -106,6 +119,9 @@ def run_shard(spec, rec):
         m = gen.markup_doc(rng)
         steps = rng.choice(gen.MARKUP_STEPS)
         check(m, steps, rec, ac)
+        if k % 4 == 1:
+            rec.count("callable_step_lists")
+            check(m, rng.choice(CALLABLE_LISTS), rec, ac)
         if k % 3 == 0:
             # history: the same markup again with the same steps in another order / another list
             # (every list still contains the html step)
@@ -121,4 +137,5 @@ def run_shard(spec, rec):
 
 def replay(w, rec):
     c = w["case"]
-    check(c["markup"], c["steps"], rec, tok.get("ac"))
+    steps = [globals()[x.split(":", 1)[1]] if x.startswith("callable:") else x for x in c["steps"]]
+    check(c["markup"], steps, rec, tok.get("ac"))
